@@ -61,7 +61,8 @@ Inductive event :=
 | Block (n p : nat) (s : stamp)               (* new block n -> p returned to the caller *)
 | Leave (n : nat)
 | ReplaceRoot (n : nat)
-| Truncate.
+| Truncate
+| Recanonicalise (n : nat).                   (* BUG.truncation: canonical_form(root) after the truncation *)
 
 (* ---- the dictionary ------------------------------------------------------------------ *)
 Definition cache := list (nat * nat * stamp).
@@ -163,7 +164,7 @@ Definition root_update (fixed : bool) (t : rtree) : list event * ntree :=
       let c3 := cupdate c0 (map (fun cr => (rid (fst cr), r, r_block (snd cr))) (combine cs rs)) in
       (init_events c0 ++ flat_map r_events rs
          ++ galerkin_prefix r (vget st r) cs rs c3 nnb
-         ++ [ReplaceRoot r] ++ (if fixed then [] else [Truncate]),
+         ++ [ReplaceRoot r] ++ (if fixed then [] else [Truncate; Recanonicalise r]),
        NNode (Orig r) (flat_map (fun r => nchildren (r_struct r)) rs))
   end.
 
@@ -232,6 +233,16 @@ Fixpoint nidents (t : ntree) : list ident :=
 Definition contract_children_of (e : event) : list (nat * list ident) :=
   match e with ContractChildren n tmp => [(n, tmp)] | _ => [] end.
 
+Definition contracts (tr : list event) : list (nat * list ident) := flat_map contract_children_of tr.
+(* what must be absorbed where: at every non-leaf node exactly the temporaries of its children *)
+Fixpoint spec_contracts (t : rtree) : list (nat * list ident) :=
+  match t with
+  | RNode n cs => flat_map spec_contracts cs
+                  ++ (if is_nil cs then [] else [(n, map (fun c => BC (rid c)) cs)])
+  end.
+Definition spec_contracts_root (t : rtree) : list (nat * list ident) :=
+  match t with RNode r cs => flat_map spec_contracts cs ++ [(r, map (fun c => BC (rid c)) cs)] end.
+
 (* ---- shape (rank) arithmetic of one step --------------------------------------------------- *)
 (* a node: identifier, dimension r of the leg to the parent (ignored at the root), product d of
    the open dimensions, children *)
@@ -255,10 +266,9 @@ Definition open_legs (nc no : nat) : list nat := seq (1 + nc) no.
 Definition new_basis_qr_legs (nc no : nat) : list nat * list nat :=
   (children_legs nc ++ open_legs nc no, [0]).
 
-(* numpy.concatenate((a, b), axis): shapes must agree off the axis *)
+(* numpy.concatenate((a, b), axis): the axis must exist, shapes must agree off the axis *)
 Fixpoint concat_shape (axis : nat) (s1 s2 : list nat) : option (list nat) :=
   match s1, s2 with
-  | [], [] => Some []
   | a :: r1, b :: r2 =>
       match axis with
       | 0 => if list_eq_dec Nat.eq_dec r1 r2 then Some ((a + b) :: r1) else None
@@ -281,20 +291,23 @@ Definition map_opt {A B : Type} (f : A -> option B) : list A -> option (list B) 
 
 (* update_node on shapes.  `pothers`: product of the dimensions of all legs of the parent except
    the one to this node, in the copy of the parent's state (where the parent is the centre).
+   `rc_keep`: the mode of the re-centring QR in update_node — the code uses SplitMode.KEEP for both
+   variants (rc_keep = true; `shape_root`); before the repair recorded as
+   C09-redundant-parent-bond-raises the rank-adaptive variant used REDUCED (rc_keep = false).
    Result: the subtree with its new parent-leg dimensions, or None = NotCompatibleException of
    replace_tensor in pull_tensor_from_different_ttn (shape of the re-centred tensor differs from
    the node of the new state). *)
-Fixpoint shape_update (fixed : bool) (pothers : nat) (t : dtree) {struct t} : option dtree :=
+Fixpoint shape_update (rc_keep fixed : bool) (pothers : nat) (t : dtree) {struct t} : option dtree :=
   match t with
   | DNode n r d cs =>
       (* move_orthogonalization_center(n): QR of the parent's tensor, R-leg = the leg to n *)
-      let r' := qr_new_leg fixed pothers r in
+      let r' := qr_new_leg rc_keep pothers r in
       if is_nil cs then
         (* leaf: QR of concat(old (r,d), updated (r',d)) along axis 0 with Q-leg = the open leg;
            fixed rank: KEEP QR of the updated tensor *)
         Some (DNode n (if fixed then r' else qr_new_leg false d (r + r')) d [])
       else
-        match map_opt (fun c => shape_update fixed (r' * prod (map drank (dsiblings c cs)) * d) c) cs with
+        match map_opt (fun c => shape_update rc_keep fixed (r' * prod (map drank (dsiblings c cs)) * d) c) cs with
         | None => None
         | Some cs' =>
             if Nat.eqb r' r then
@@ -304,17 +317,20 @@ Fixpoint shape_update (fixed : bool) (pothers : nat) (t : dtree) {struct t} : op
         end
   end.
 
-Definition shape_root (fixed : bool) (t : dtree) : option dtree :=
+Definition shape_root_gen (rc_keep fixed : bool) (t : dtree) : option dtree :=
   match t with
   | DNode n r d cs =>
-      match map_opt (fun c => shape_update fixed (prod (map drank (dsiblings c cs)) * d) c) cs with
+      match map_opt (fun c => shape_update rc_keep fixed (prod (map drank (dsiblings c cs)) * d) c) cs with
       | None => None
       | Some cs' => Some (DNode n r d cs')
       end
   end.
 
-(* the guard under which the rank-adaptive step does not raise: at every non-leaf non-root node
-   the parent leg is not larger than the product of the parent's other legs *)
+(* the code: re-centring keeps the bond dimension *)
+Definition shape_root (fixed : bool) (t : dtree) : option dtree := shape_root_gen true fixed t.
+
+(* the guard under which a rank-adaptive step with a REDUCED re-centring does not raise: at every
+   non-leaf non-root node the parent leg is not larger than the product of the parent's other legs *)
 Fixpoint parent_side_ok (pothers : nat) (t : dtree) {struct t} : bool :=
   match t with
   | DNode n r d cs =>
@@ -329,14 +345,16 @@ Definition parent_side_ok_root (t : dtree) : bool :=
 
 (* relation between the shapes before and after: same identifiers, open dimensions and children,
    every parent leg at most doubled *)
+Definition forall2b {A B : Type} (f : A -> B -> bool) : list A -> list B -> bool :=
+  fix go (l : list A) (l' : list B) : bool :=
+    match l, l' with
+    | [], [] => true
+    | x :: xs, y :: ys => f x y && go xs ys
+    | _, _ => false
+    end.
+
 Fixpoint grows_le2 (a b : dtree) {struct a} : bool :=
   match a, b with
   | DNode i r d cs, DNode i' r' d' cs' =>
-      Nat.eqb i i' && Nat.eqb d d' && Nat.leb r' (2 * r)
-      && (fix go (l : list dtree) (l' : list dtree) : bool :=
-            match l, l' with
-            | [], [] => true
-            | x :: xs, y :: ys => grows_le2 x y && go xs ys
-            | _, _ => false
-            end) cs cs'
+      Nat.eqb i i' && Nat.eqb d d' && Nat.leb r' (2 * r) && forall2b grows_le2 cs cs'
   end.
